@@ -6,7 +6,7 @@ ID = 'C20'
 COQ_FILES = ['Properties/C20.v', 'Proofs/EmitterProofs.v']
 TRUSTED = [
     'modelled, not verified: the Python call stack as a worklist; defaultdict/list semantics of Emitter._e; '
-    'function identity as callback identity; RecursionError (non-returning histories) is outside the theorems',
+    'callback identity is Python equality (==) of callables, as the emitter compares them; RecursionError (non-returning histories) is outside the theorems',
 ]
 EXPLANATION = ('Coq theorems for every history, every callback behaviour (scripts that subscribe, unsubscribe and '
                'emit during delivery) and every returning run: the table equals the history-based specification, '
@@ -15,7 +15,7 @@ EXPLANATION = ('Coq theorems for every history, every callback behaviour (script
                'name isolation, exact effect of on/off. Tied to tinyemitter.py by random scripted histories run on '
                'the real Emitter and on a Parser instance (call log and final tables compared); an independent '
                'trace-acceptor oracle checks the property on the implementation.')
-ASSUMPTIONS = ['callbacks return (no infinite re-emission); callbacks are distinct function objects without a "_" attribute']
+ASSUMPTIONS = ['callbacks return (no infinite re-emission); callbacks are plain functions (even ids) or bound methods re-fetched on every use (odd ids: equal but not identical objects), without a "_" attribute']
 
 NAMES = 4
 MAXD = 3
@@ -80,6 +80,7 @@ def run_impl(case, use_parser=False):
     emits = []
     counter = [0]
     cbs = {}
+    holders = {}
 
     def make_cb(f):
         def cb(*args, **kw):
@@ -92,7 +93,12 @@ def run_impl(case, use_parser=False):
                     do(op)
             finally:
                 depth[0] -= 1
-        return cb
+        if f % 2 == 0:
+            return lambda: cb
+        # odd callbacks are bound methods: equal, but a fresh object on every access (the emitter compares with ==/!=)
+        holder = type('Holder', (object,), {'m': lambda self, *a, **k: cb(*a, **k)})()
+        holders[id(holder)] = f
+        return lambda: holder.m
 
     def do(op):
         k, x, y, z = op
@@ -104,7 +110,7 @@ def run_impl(case, use_parser=False):
             counter[0] += 1
             trace.append(('sub', x, sid, y, z, k == 1))
             ctx = {'c': z} if z else None
-            (em.once if k == 1 else em.on)(name, cbs[y], ctx)
+            (em.once if k == 1 else em.on)(name, cbs[y](), ctx)
         elif k == 2:
             trace.append(('off', x, None if y < 0 else y))
             if y < 0:
@@ -112,7 +118,7 @@ def run_impl(case, use_parser=False):
             else:
                 if y not in cbs:
                     cbs[y] = make_cb(y)
-                em.off(name, cbs[y])
+                em.off(name, cbs[y]())
         else:
             eid = counter[0]
             counter[0] += 1
@@ -131,7 +137,10 @@ def run_impl(case, use_parser=False):
         return [-1], trace
     except Exception as e:  # noqa
         return ['EXC', type(e).__name__, str(e)], trace
-    inv = {id(v): k for k, v in cbs.items()}
+    inv = {id(v()): k for k, v in cbs.items() if k % 2 == 0}
+
+    def who(fn):
+        return holders.get(id(getattr(fn, '__self__', None)), inv.get(id(fn), -1))
     out = [len(log)]
     for f, a, c in log:
         out += [f, a, c]
@@ -140,7 +149,7 @@ def run_impl(case, use_parser=False):
         out.append(len(ls))
         for l in ls:
             once = hasattr(l.fn, '_')
-            f = inv.get(id(l.fn._ if once else l.fn), -1)
+            f = who(l.fn._ if once else l.fn)
             out += [f, l.ctx.get('c', 0), 1 if once else 0]
     return out, trace
 
